@@ -290,7 +290,7 @@ func (so *Solver) Check(q Query) Answer {
 		tmo = 20000
 	}
 	cacheKey := ""
-	if len(q.want) == 0 && q.purpose == "feas" {
+	if len(q.want) == 0 && strings.HasPrefix(q.purpose, "feas") {
 		cacheKey = body
 		if st, ok := so.cache[cacheKey]; ok {
 			so.stats.CacheHits++
